@@ -498,6 +498,93 @@ pub fn run(pid: &str, seed: u64, n: usize, out: &Path, _thorough: bool) -> anyho
     Ok(())
 }
 
+/// C12: a slow subscriber. Channel 0 is bounded (capacity 1) and is not read while two inserts are made:
+/// the actor, having stored the second entry, waits for room in that channel. The writer of the second
+/// insert stops waiting in that moment (its future is dropped). Then the channel is read. Every applied
+/// entry must still be announced once on both subscriptions, and the subscriptions must survive.
+async fn slow_subscriber_case(rng: &mut Rng, uni: &Universe, code: u64, wrap: Option<&str>) -> anyhow::Result<(String, String)> {
+    use std::future::Future;
+    let (ns, secret) = uni.docs[0];
+    let mut ts = TestStore::new(false)?;
+    let handle = SyncHandle::spawn(ts.store.take().unwrap(), None, "verif-slow".into());
+    let mut author_ids = Vec::new();
+    for a in &uni.authors { author_ids.push(handle.import_author(a.clone()).await?); }
+    let (slow_tx, slow_rx) = async_channel::bounded::<Event>(1);
+    let (fast_tx, fast_rx) = async_channel::unbounded::<Event>();
+    let mut client = Client { handle, txs: vec![slow_tx, fast_tx], rxs: vec![Some(slow_rx), Some(fast_rx)], author_ids };
+    let unknown = AuthorId::from(&[0x55u8; 32]);
+    let mut ops: Vec<AOp> = vec![
+        AOp::Import { ns, secret: Some(secret) },
+        AOp::Open { ns, sync: true, sub: Some(0) },
+        AOp::Subscribe { ns, chan: 1 },
+    ];
+    let keys: Vec<Vec<u8>> = vec![gen_key(rng), { let mut k = gen_key(rng); k.push(0x31); k }, { let mut k = gen_key(rng); k.push(0x32); k }];
+    let au = rng.below(uni.authors.len() as u64) as usize;
+    for (i, k) in keys.iter().enumerate() {
+        ops.push(AOp::InsertLocal { ns, au, known: true, key: k.clone(), hash: HASH_A, len: 1, now: T0 + 1 + i as u64 });
+    }
+    let mut replies: Vec<String> = Vec::new();
+    let mut deliveries: Vec<Vec<(usize, Event)>> = Vec::new();
+    // setup and the first insert: awaited; only the fast channel is read afterwards
+    for op in &ops[..4] {
+        replies.push(client.apply(op, unknown).await?);
+        let mut d = Vec::new();
+        if let Some(rx) = &client.rxs[1] { while let Ok(ev) = rx.try_recv() { d.push((1usize, ev)); } }
+        deliveries.push(d);
+    }
+    // the second insert: sent, the actor stores the entry and waits for room in channel 0; the writer gives up
+    let cancelled_pos = 5usize; // position (from 1) of the second insert in the history
+    {
+        let h = client.handle.clone();
+        let (a, k) = (client.author_ids[au], keys[1].clone());
+        verif::set_clock(T0 + 2);
+        let mut fut = Box::pin(h.insert_local(NamespaceId::from(&ns), a, k.into(), iroh_blobs::Hash::from_bytes(HASH_A), 1));
+        let _ = std::future::poll_fn(|cx| std::task::Poll::Ready(fut.as_mut().poll(cx))).await;
+        tokio::time::sleep(std::time::Duration::from_millis(60)).await;
+        drop(fut);
+    }
+    replies.push("AOk".into());
+    // now the slow channel is read until the actor has passed the second insert (a later request as barrier)
+    let mut slow: Vec<Event> = Vec::new();
+    {
+        let hb = client.handle.clone();
+        let mut barrier = Box::pin(async move { hb.get_state(NamespaceId::from(&ns)).await });
+        loop {
+            if let Some(rx) = &client.rxs[0] { while let Ok(ev) = rx.try_recv() { slow.push(ev); } }
+            match tokio::time::timeout(std::time::Duration::from_millis(20), &mut barrier).await {
+                Ok(_) => break,
+                Err(_) => continue,
+            }
+        }
+    }
+    if let Some(rx) = &client.rxs[0] { while let Ok(ev) = rx.try_recv() { slow.push(ev); } }
+    let mut d2: Vec<(usize, Event)> = Vec::new();
+    if let Some(rx) = &client.rxs[1] { while let Ok(ev) = rx.try_recv() { d2.push((1usize, ev)); } }
+    // the slow channel's events belong to the first and the second insert, in that order
+    let mut slow_it = slow.into_iter();
+    if let Some(ev) = slow_it.next() { deliveries[3].insert(0, (0usize, ev)); }
+    let mut d2_all: Vec<(usize, Event)> = slow_it.map(|ev| (0usize, ev)).collect();
+    d2_all.extend(d2);
+    deliveries.push(d2_all);
+    // the third insert: awaited, both channels read
+    replies.push(client.apply(&ops[5], unknown).await?);
+    deliveries.push(client.drain());
+    let store = client.handle.shutdown().await;
+    let mut fin = Vec::new();
+    if let Ok(mut store) = store {
+        for d in &uni.docs {
+            let l = all_entries(&mut store, NamespaceId::from(&d.0))?;
+            fin.push(format!("({}, {})", n256(&d.0), clist(&l, centry)));
+        }
+    }
+    let hist: Vec<String> = ops.iter().zip(replies.iter()).zip(deliveries.iter())
+        .map(|((op, r), d)| format!("({}, {}, {})", caop(uni, op), r, clist(d, |(c, ev)| format!("({}, {})", c, cevent(ev))))).collect();
+    let coq = format!("({}mkCase {} [{}] [] [] [{}] true [{}])", if wrap.is_some() { "Actor." } else { "" }, code, hist.join("; "), fin.join("; "), cancelled_pos);
+    let coq = match wrap { Some(w) => format!("({} {})", w, coq), None => coq };
+    let json = format!("{{\"slow_subscriber_scenario\":true,\"events_per_step\":{:?}}}", deliveries.iter().map(|d| d.len()).collect::<Vec<_>>());
+    Ok((coq, json))
+}
+
 /// The histories of `pid` (C12 or C14) written into an existing case file; `wrap` = constructor of the
 /// enclosing case type, if the file belongs to another check (C15 runs C12-style histories for the
 /// download flag of events).
@@ -613,6 +700,15 @@ pub fn run_into(pid: &str, seed: u64, n: usize, cw: &mut CaseWriter, stats_out: 
             stats.inc("distinct_nontrivial");
         }
         cw.push(coq, json)?;
+    }
+    if pid == "C12" {
+        // a few scripted runs with a slow (bounded, unread) subscriber and a writer that gives up
+        for i in 0..(n / 50).max(4) {
+            let uni = Universe::new(seed.wrapping_add(5000 + i as u64), 2, 1 + rng.below(3) as usize);
+            let (coq, json) = rt.block_on(slow_subscriber_case(&mut rng, &uni, code, wrap))?;
+            stats.inc("slow_subscriber_scenarios");
+            cw.push(coq, json)?;
+        }
     }
     *stats_out = stats;
     Ok(())
